@@ -294,7 +294,9 @@ func extPlain(thorough bool) *rep.Plain {
 	return &rep.Plain{Name: "ext/unstored-types/len1-2", Weight: 2, Run: func(r *rep.Report) {
 		t := &tally{}
 		defer func() { r.AddStates(t.cases, t.calls) }()
-		all := fullAlphabet(len(typeNames))
+		// the bare schema.Activity is the abstract base of the activity types (a process has no
+		// element to hold it); "every activity type" is read as every concrete type
+		all := fullAlphabet(len(typeNames) - 1)
 		ks := []int{1}
 		if thorough {
 			ks = []int{1, 2, 3}
